@@ -501,3 +501,14 @@ def run(chk, R, tier, seed):
     rng.shuffle(cases)
     run_cases(chk, R, cases, per_program=50,
               prelude=pool_prelude() + UNIT_PRELUDE)
+
+
+_run_generated = run
+
+
+def run(chk, R, tier, seed):          # noqa: F811
+    _run_generated(chk, R, tier, seed)
+    from .. import suitemon
+    if suitemon.wanted(tier):
+        # the repository's own tests as one more workload (DESIGN 9.7)
+        suitemon.suite_stage(chk, R, "C07")
